@@ -1,3 +1,114 @@
-(* C02 — placeholder until the proofs are in place *)
+(* C02 — contractions and structural rearrangements equal their dense definition.
+   Property theorems only.  Every order, dimension vector and rank vector; R any commutative ring
+   with involution.  PARTIAL: the value of tensordot is proved for the accumulated matrix of all four
+   modes (C02_contractM: it is the rank-rank matrix every structural case merges), and for the full
+   result in mode 'last-first' (partial and complete contraction).  For the three other modes the
+   assembly of the result cores (merge side, reversal + rank-transposition of the other operand's
+   cores) is modelled in Model/Structure.v and tied to the code by the correspondence, and its
+   ingredients are proved (C02_rank_transpose, C02_concatenate, C02_rank_tensordot); the composed
+   statements are kept as [tensordot_*_full : Prop] below, not proved. *)
 From Coq Require Import ZArith List Lia Arith.
-Require Import Ring Sums Matrix Core Chain Structure.
+Import ListNotations.
+Require Import Ring Sums Matrix Core Chain Sweep Structure SweepProof StructProof TensordotProof.
+Open Scope cr_scope.
+
+(* the accumulated matrix of tensordot = sum over the row and column indices of the contracted
+   cores of the product of the two chains *)
+Theorem C02_contractM (R : cring) (tpart upart : list (core R)) a bn a' b'n :
+  tpart <> [] -> length upart = length tpart ->
+  (bn < rr (lastc tpart))%nat -> (b'n < rr (lastc upart))%nat ->
+  contractM tpart upart a bn a' b'n =
+  dsum (rows tpart) (cols tpart) (fun zx zy => chain tpart zx zy a bn * chain upart zx zy a' b'n).
+Proof. exact (contractM_spec tpart upart a bn a' b'n). Qed.
+Print Assumptions C02_contractM.
+
+(* mode 'last-first', num_axes < order of self *)
+Theorem C02_tensordot_last_first (R : cring) (pre : list (core R)) c tpart upart post xp yp x y xq yq i j fin :
+  tpart <> [] -> length upart = length tpart -> rows upart = rows tpart -> cols upart = cols tpart ->
+  linked (pre ++ c :: tpart) 1%nat -> linked (upart ++ post) fin -> rl_of upart 1%nat = 1%nat ->
+  length xp = length pre -> length yp = length pre -> (pre = [] -> (i < rl c)%nat) ->
+  chain (tensordot LastFirst (length tpart) (pre ++ c :: tpart) (upart ++ post)) (xp ++ x :: xq) (yp ++ y :: yq) i j =
+  dsum (rows tpart) (cols tpart) (fun zx zy =>
+     chain (pre ++ c :: tpart) (xp ++ x :: zx) (yp ++ y :: zy) i 0%nat *
+     chain (upart ++ post) (zx ++ xq) (zy ++ yq) 0%nat j).
+Proof.
+  intros H1 H2 H3 H4 H5 H6 H7 H8 H9 H10. rewrite tensordot_lf_unfold by exact H2.
+  exact (tensordot_last_first_value pre c tpart upart post xp yp x y xq yq i j fin H1 H2 H3 H4 H5 H6 H7 H8 H9 H10).
+Qed.
+Print Assumptions C02_tensordot_last_first.
+
+(* complete contraction of both operands *)
+Theorem C02_tensordot_complete (R : cring) (ts us : list (core R)) :
+  ts <> [] -> length us = length ts -> linked ts 1%nat -> linked us 1%nat ->
+  snd (sliceM LastFirst ts us) 0%nat 0%nat =
+  dsum (rows ts) (cols ts) (fun zx zy => elem ts zx zy * elem us zx zy).
+Proof. exact (tensordot_complete_value ts us). Qed.
+Print Assumptions C02_tensordot_complete.
+
+(* NOT PROVED (kept visible): for mode in {last-last, first-last, first-first} the analogous identity
+     chain (tensordot mode k self other) (documented index order) =
+       dsum (contracted dims) (chain self .. * chain other ..)
+   where the uncontracted cores of other appear reversed and rank-transposed in last-last and
+   first-first.  Ingredients proved: C02_contractM (all modes), C02_rank_transpose, C02_concatenate. *)
+
+(* rank_transpose: reversed index order, transposed boundary ranks *)
+Theorem C02_rank_transpose (R : cring) (cs : list (core R)) xs ys i j fin :
+  length xs = length cs -> length ys = length cs -> linked cs fin ->
+  (i < rl_of cs fin)%nat -> (j < fin)%nat ->
+  chain (rank_transpose cs) (rev xs) (rev ys) j i = chain cs xs ys i j.
+Proof. exact (chain_rank_transpose cs xs ys i j fin). Qed.
+Print Assumptions C02_rank_transpose.
+
+(* concatenate *)
+Theorem C02_concatenate (R : cring) (cs ds : list (core R)) xs1 ys1 xs2 ys2 fin i j :
+  cs <> [] -> length xs1 = length cs -> length ys1 = length cs -> linked cs fin -> fin = rl_of ds fin ->
+  chain (concatenate cs ds) (xs1 ++ xs2) (ys1 ++ ys2) i j =
+  mmul fin (chain cs xs1 ys1) (chain ds xs2 ys2) i j.
+Proof. exact (chain_concatenate cs ds xs1 ys1 xs2 ys2 fin i j). Qed.
+Print Assumptions C02_concatenate.
+
+(* rank_tensordot(mode='last') *)
+Theorem C02_rank_tensordot (R : cring) (cs : list (core R)) c n Mat xs ys x y i j :
+  length xs = length cs -> length ys = length cs -> linked (cs ++ [c]) (rr c) -> (j < n)%nat -> (0 < n)%nat ->
+  chain (rank_tensordot_last (cs ++ [c]) n Mat) (xs ++ [x]) (ys ++ [y]) i j =
+  sum (rr c) (fun q => chain (cs ++ [c]) (xs ++ [x]) (ys ++ [y]) i q * Mat q j).
+Proof. exact (chain_rank_tensordot_last cs c n Mat xs ys x y i j). Qed.
+Print Assumptions C02_rank_tensordot.
+
+(* diag: delta on the chosen modes, unchanged elsewhere *)
+Theorem C02_diag (R : cring) (cs : list (core R)) sel xs ys i j :
+  length sel = length cs -> length xs = length cs -> length ys = length cs ->
+  chain (tdiag sel cs) xs ys i j =
+  if diag_ok sel xs ys then chain cs xs (diag_cols sel ys) i j else 0.
+Proof. exact (chain_tdiag cs sel xs ys i j). Qed.
+Print Assumptions C02_diag.
+
+(* qtt2tt: a merged core is indexed row-major by the pair of merged indices *)
+Theorem C02_merge (R : cring) (c d : core R) x1 x2 y1 y2 i j :
+  (x2 < md d)%nat -> (y2 < nd d)%nat ->
+  cmat (mergecore c d) (x1 * md d + x2) (y1 * nd d + y2) i j =
+  mmul (rr c) (cmat c x1 y1) (cmat d x2 y2) i j.
+Proof. exact (cmat_mergecore c d x1 x2 y1 y2 i j). Qed.
+Print Assumptions C02_merge.
+
+(* tt2qtt then qtt2tt: splitting a mode and merging it back is the identity (per split step;
+   needs only the value conjunct of the SVD specification) *)
+Theorem C02_split_merge (R : cring) idx (a : svd_ans R) (c : core R) mj nj X Y i j :
+  let rd := (md c / mj)%nat in let cd := (nd c / nj)%nat in
+  svd_value idx (rl c * mj * nj) (rd * cd * rr c) (split_unfold c mj nj) a ->
+  (0 < rd)%nat -> (0 < cd)%nat -> (X < mj * rd)%nat -> (Y < nj * cd)%nat -> (i < rl c)%nat -> (j < rr c)%nat ->
+  cmat (mergecore (fst (split_step idx a c mj nj)) (snd (split_step idx a c mj nj))) X Y i j = g c i X Y j.
+Proof. exact (split_merge_value idx a c mj nj X Y i j). Qed.
+Print Assumptions C02_split_merge.
+
+(* ---- non-vacuity: a concrete complex contraction ---- *)
+Definition exT1 : core ZIring := @mkcore ZIring 1 2 1 2 (fun _ x _ b => (Z.of_nat (x + b), 1%Z)).
+Definition exT2 : core ZIring := @mkcore ZIring 2 2 1 1 (fun a x _ _ => (Z.of_nat (2 * a + x), (-1)%Z)).
+Definition exU1 : core ZIring := @mkcore ZIring 1 2 1 2 (fun _ x _ b => (Z.of_nat (3 * x + b), 2%Z)).
+Definition exU2 : core ZIring := @mkcore ZIring 2 3 1 1 (fun a x _ _ => (Z.of_nat (a + x), 0%Z)).
+Example ex_hyps : linked ([] ++ exT1 :: [exT2]) 1%nat /\ linked ([exU1] ++ [exU2]) 1%nat /\ rows [exU1] = rows [exT2].
+Proof. repeat split; simpl; lia. Qed.
+Example ex_tensordot_concrete :
+  elem (tensordot LastFirst 1 [exT1; exT2] [exU1; exU2]) [1%nat; 2%nat] [0%nat; 0%nat] =
+  dsum [2%nat] [1%nat] (fun zx zy => (elem [exT1; exT2] (1%nat :: zx) (0%nat :: zy) * elem [exU1; exU2] (zx ++ [2%nat]) (zy ++ [0%nat]))).
+Proof. vm_compute. reflexivity. Qed.
